@@ -54,8 +54,11 @@ REQUIRED_WSEG = [
     'write_routes', 'write_then_full', 'write_then_full_selected', 'write_then_full_other', 'injective_of_distinct',
     'writes_disjoint', 'chunks_commute', 'chunks_commute_scatter', 'full_eval', 'overlapsW_eq', 'data_entry',
     'leaf_routes', 'orient_routes', 'subset_routes', 'bands_routes', 'block_routes', 'fullOnto_char', 'tiled_plain',
+    # SEG2: routing of every part of a written pixel, complex format functions included (Props/C07SegG.lean)
+    'write_routesG', 'routesG_plain', 'stores_comb', 'stores_leaf', 'routes_transfer', 'leaf_routesG', 'orient_routesG',
+    'subset_routesG', 'cplx_routesG', 'kept_routesG', 'bands_routesG', 'block_routesG', 'fullOnto_charP', 'orient_inj', 'subset_inj',
 ]
-WSEG_MODULE = 'SarpyModel.Props.C07Seg'
+WSEG_MODULE = 'SarpyModel.Props.C07SegG'
 WSEG_NS = 'Sarpy.Props.C07Seg'
 
 
@@ -597,4 +600,5 @@ def obligations_reads(chk, broken):
 def obligations_writes(chk, broken):
     """audit Props/C07Seg.lean (add WSEG_MODULE to the chk.prove targets); the read theorems are obligations too"""
     _obligations(chk, broken, WSEG_MODULE, WSEG_NS, REQUIRED_WSEG, 'C07Seg')
-    _obligations(chk, broken, SEG_MODULE, SEG_NS, ['read_refines', 'full_shape', 'full_local'], 'C01Seg')
+    _obligations(chk, broken, SEG_MODULE, SEG_NS, ['read_refines', 'full_shape', 'full_local', 'accepts_of_total',
+                                                   'rawSubK_eq', 'rawSubK_reversed_not_normal', 'fmtSub_normal'], 'C01Seg')
